@@ -26,7 +26,48 @@ import (
 
 func sha256Digest(b []byte) [32]byte { return sha256.Sum256(b) }
 
+// opsCache: number of persistence operations of the crash target per crash-free scenario.
+var opsCache = map[string]int{}
+
+// RunDaemon executes one scenario. A crash plan without an operation number is
+// resolved first: a crash-free pass counts the target's persistence operations.
 func RunDaemon(t *testing.T, sc *DaemonScenario, dump io.Writer) (res RunResult) {
+	if sc.Crash != nil && sc.Crash.At == 0 {
+		base := *sc
+		cp := *sc.Crash
+		cp.At, cp.AtIndex, cp.Mode, cp.TornPct, cp.DownMs = -1, 0, "", 0, 0
+		base.Crash = &cp
+		kb, _ := json.Marshal(base)
+		key := string(kb)
+		ops, ok := opsCache[key]
+		if !ok {
+			r0 := runDaemon1(t, &base, nil)
+			if r0.HarnessErr != "" {
+				r0.HarnessErr = "counting pass: " + r0.HarnessErr
+				return r0
+			}
+			ops = r0.Counters["probe:target_persistence_ops"]
+			opsCache[key] = ops
+		}
+		if ops == 0 {
+			res = RunResult{Seed: sc.Seed, Engine: "daemon", Prop: sc.Prop, HarnessErr: "crash target performed no persistence operation"}
+			return
+		}
+		resolved := *sc
+		cr := *sc.Crash
+		cr.At = 1 + cr.AtIndex%ops
+		resolved.Crash = &cr
+		res = runDaemon1(t, &resolved, dump)
+		res.Summary += fmt.Sprintf(" ops=%d at=%d mode=%s", ops, cr.At, cr.Mode)
+		if res.Counters != nil {
+			res.Counters[fmt.Sprintf("c13point:%s:%d/%d:%s%d", sc.Mode, cr.At, ops, cr.Mode, cr.TornPct)] = 1
+		}
+		return
+	}
+	return runDaemon1(t, sc, dump)
+}
+
+func runDaemon1(t *testing.T, sc *DaemonScenario, dump io.Writer) (res RunResult) {
 	wall := time.Now()
 	res = RunResult{Seed: sc.Seed, Engine: "daemon", Prop: sc.Prop}
 	dir, err := os.MkdirTemp(tmpRoot(), "zv-daemon-")
@@ -87,6 +128,17 @@ func (e *daemonEngine) body(res *RunResult) {
 	}
 	for _, id := range e.beaconIDs() {
 		if err := e.runInitialDKG(id, genesis); err != nil {
+			if sc.Crash != nil && sc.Crash.At > 0 {
+				// the key generation failed because the target died in the middle of it: what the run is
+				// about is the state it restarts from, and that has been (or is being) checked
+				e.rec.Count("probe:dkg_failed_because_of_the_crash", 1)
+				time.Sleep(e.dkgDuration() + 5*time.Second)
+				synctest.Wait()
+				res.Summary = "first DKG failed because of the crash" + e.crashSummary()
+				res.NonTrivial = true
+				e.shutdown()
+				return
+			}
 			res.HarnessErr = "dkg: " + err.Error()
 			return
 		}
@@ -97,6 +149,13 @@ func (e *daemonEngine) body(res *RunResult) {
 		cc := e.chains[id]
 		ep := e.collectEpoch(id, first, 1, nil)
 		cc.epochs = append(cc.epochs, ep)
+		if (ep.group == nil || ep.master == nil || len(ep.complete) < sc.T) && sc.Crash != nil && sc.Crash.At > 0 {
+			e.rec.Count("probe:dkg_failed_because_of_the_crash", 1)
+			res.Summary = "first DKG incomplete because of the crash" + e.crashSummary()
+			res.NonTrivial = true
+			e.shutdown()
+			return
+		}
 		if ep.group == nil || ep.master == nil || len(ep.complete) < sc.T {
 			e.rec.Violate("C06", "initial-dkg-did-not-complete", "liveness", "beacon %s: %d of %d nodes completed the first DKG (threshold %d) in a fault-free network", id, len(ep.complete), sc.N, sc.T)
 			res.Summary = "initial DKG incomplete"
@@ -152,6 +211,14 @@ func (e *daemonEngine) body(res *RunResult) {
 	synctest.Wait()
 	res.VirtualMs = time.Since(e.start).Milliseconds()
 	e.finalChecks(healAt, res)
+	if sc.Crash != nil {
+		n := e.nodes[sc.Crash.Node]
+		e.rec.Count("probe:target_persistence_ops", n.pc.count)
+		res.Summary += e.crashSummary()
+		if sc.Crash.At > 0 && !n.pc.fired {
+			e.rec.Count("probe:crash_point_not_reached", 1)
+		}
+	}
 	e.shutdown()
 }
 
